@@ -250,13 +250,19 @@ def check_case(case: dict) -> Outcome:
     try:
         if kind == "rule":
             q1 = _convert_rule(cls.from_dict(copy.deepcopy(doc)))
-            q2 = _convert_rule(cls.from_dict(copy.deepcopy(d1)))
         else:
             ctx_docs = case["context"]
             q1 = _convert_collection(ctx_docs + [doc])
-            q2 = _convert_collection(ctx_docs + [d1])
     except (SigmaError, NotImplementedError) as e:
         out.skipped = "not convertible: " + type(e).__name__
+        return out
+    try:
+        if kind == "rule":
+            q2 = _convert_rule(cls.from_dict(copy.deepcopy(d1)))
+        else:
+            q2 = _convert_collection(ctx_docs + [d1])
+    except (SigmaError, NotImplementedError) as e:
+        out.fail(sig(f"C06:{kind}:reloaded-not-convertible:{type(e).__name__}"), f"the original converts to {q1}, but the reloaded to_dict() output {d1.get('detection', d1.get('correlation', d1.get('filter')))!r} fails: {e}"[:900])
         return out
     if q1 != q2 and (kind != "rule" or not _same_meaning(q1, q2)):
         out.fail(sig(f"C06:{kind}:queries-changed"), f"original converts to {q1}, reloaded to_dict() {d1.get('detection', d1.get('correlation', d1.get('filter')))!r} to {q2}"[:900])
